@@ -202,8 +202,19 @@ def summarise(pid, results, meta, tier, t0):
         explanation=meta.get('explanation', ''),
         known_findings_printed=[r['finding_key'] for r in printed_known],
     )
+    # assumptions every obligation of the two engines rests on (DESIGN.md section 4); property-specific ones come from META
+    general = []
+    backends = set(r.get('backend') for r in proofs)
+    if proofs:
+        general.append('machine arithmetic treated as mathematical: IEEE doubles are reals, C int / numpy int64 are unbounded integers; round-off, overflow, nan/inf filters are outside the proofs (bounded drivers complement them)')
+    if any((r.get('func') or '').endswith('.py') or '.py::' in (r.get('func') or '') for r in proofs):
+        general += ['Python semantics as modelled by vf/pyvc.py; numpy / scipy / stdlib functions by the stated models (DESIGN.md section 4), checked against CPython by tools/crosscheck_e2.py; arrays have the stated small concrete shapes with symbolic entries',
+                    'callees that existed when the contracts were written and are not inlined or answered by a contract are opaque terms (contracts/known_functions.json); the Spectrum constructor keeps data and mask and masks the two corners unless mask_corners=False',
+                    'termination of loops is not proved']
+    if any('.c::' in (r.get('func') or '') or (r.get('func') or '').endswith('.c') for r in proofs):
+        general.append('C semantics as modelled by vf/cvc.py over the clang AST of the current source: no aliasing between distinct array parameters, malloc succeeds, all Thomas pivots non-zero (explicit hypothesis of every kernel postcondition)')
     ev = dict(property_id=pid, tier=tier, seed=common.seed(), level=level, coverage=cov,
-              assumptions=meta.get('assumptions', []), wall_s=round(time.time() - t0, 2),
+              assumptions=list(meta.get('assumptions', [])) + general, wall_s=round(time.time() - t0, 2),
               violations=len(violations))
     path = os.path.join(common.EVIDENCE_DIR, pid + '.json')
     jdump(ev, path)
